@@ -10,6 +10,8 @@
 -/
 import DltVerif.Lemmas.FibexRead
 import DltVerif.Lemmas.FibexOrder
+import DltVerif.Lemmas.FibexKeyed
+import DltVerif.Lemmas.FibexVocab
 
 namespace Dlt
 open Dlt.Fibex Dlt.Fibex.Spec
@@ -177,6 +179,50 @@ theorem C11_order_independent (es es' : List Elem) (hp : es.Perm es') (hd : Dist
   have : (framesOf es).find? (fun f => f.id == id) = (framesOf es').find? (fun f => f.id == id) :=
     find?_perm (fun (f : FrameDoc) => f.id) id (hp.filterMap _) hd.2.1
   rw [this]
+
+/-- looking a frame up by (context id, application id, frame id) returns the FIRST frame in
+    document order that carries exactly these three ids (frames without a manufacturer
+    extension, or with only one of the two ids, are not in this map) -/
+theorem C11_first_wins_keyed (files : List FileDoc) (md : FibexMetadata)
+    (h : Spec.model files = some md) (key : FrameKey) :
+    lookupK md.frameMapWithKey key
+      = ((framesOf files.flatten).find? (hasKey key)).bind (frameMeta files.flatten) := by
+  unfold Spec.model at h
+  simp only at h
+  split at h
+  · rename_i hall
+    cases h
+    simp only
+    rw [lookupK_firstPerKey]
+    refine Eq.trans ?_ (lookupK_keyed _ _ hall key)
+    rw [show lookupK ([] : List (FrameKey × FrameMetadata)) key = none from rfl, Option.none_or]
+    congr 2
+  · cases h
+
+/-- ... and the keyed lookup does not depend on the order of the elements either -/
+theorem C11_order_independent_keyed (es es' : List Elem) (hp : es.Perm es') (hd : DistinctIds es)
+    (md md' : FibexMetadata) (h : Spec.model [es] = some md) (h' : Spec.model [es'] = some md')
+    (key : FrameKey) : lookupK md.frameMapWithKey key = lookupK md'.frameMapWithKey key := by
+  have e1 := C11_first_wins_keyed [es] md h key
+  have e2 := C11_first_wins_keyed [es'] md' h' key
+  simp only [List.flatten_cons, List.flatten_nil, List.append_nil] at e1 e2
+  rw [e1, e2]
+  have hfm : frameMeta es = frameMeta es' := funext (frameMeta_perm hp hd)
+  rw [hfm]
+  have hperm := hp.filterMap (fun | Elem.frame f => some f | _ => none)
+  have hn' : ((framesOf es').map (·.id)).Nodup := (hperm.map (·.id)).nodup_iff.mp hd.2.1
+  rw [find?_hasKey key _ hd.2.1, find?_hasKey key _ hn']
+  have : (framesOf es).find? (fun f => f.id == key.frameId)
+      = (framesOf es').find? (fun f => f.id == key.frameId) :=
+    find?_perm (fun (f : FrameDoc) => f.id) key.frameId (hp.filterMap _) hd.2.1
+  rw [this]
+
+/-- the type vocabulary: `Spec.typeOf` (phrased with the model's comparison chain) is the table
+    written out in Spec/Fibex.lean - the 16 standard signal names (`S_FLOA16` known, without a
+    supported type) decide; every other reference goes signal -> coding -> base data type
+    through the definitions in force and the 16 base data types -/
+theorem C11_vocabulary (es : List Elem) (ref : Bytes) : typeOf es ref = typeOfRef es ref :=
+  typeOf_eq_typeOfRef es ref
 
 /-- a reference to an unknown PDU makes loading fail -/
 theorem C11_unknown_pdu_fails (files : List FileDoc) (f : FrameDoc) (i : Inst)
